@@ -97,6 +97,8 @@ def apply_preset(resp, preset):
         resp.data = preset['data'].encode('utf-8')
     if 'media' in preset:
         resp.media = preset['media']
+    if 'vary' in preset:
+        resp.append_header('Vary', preset['vary'])
 
 
 class C04Handler(falcon.media.BaseHandler):
@@ -408,6 +410,11 @@ def hvalues(out, name):
     return [v for k, v in out['headers'] if k == name]
 
 
+def members(values):
+    """comma-separated header members, case-insensitive set"""
+    return {t.strip().lower() for v in values for t in v.split(',') if t.strip()}
+
+
 def essence(ct):
     return (ct or '').split(';', 1)[0].strip().lower()
 
@@ -665,8 +672,13 @@ class Checker:
             return
         kind, payload = self.outcome_of(hid, cls, inst, es, st, log)
         at_render = site == 'render'
+        # Vary members the response already carried: judged when nothing else in this request can have
+        # replaced the header (exactly one raise; harness handlers never touch Vary)
+        pre_vary = None
+        if len(raises) == 1:
+            pre_vary = members([e[2]['vary'] for e in log if e[0] == 'preset' and 'vary' in e[2]])
         if kind == 'error':
-            self.check_error(rq, out, payload, accept, method, cands, at_render, form_ctx)
+            self.check_error(rq, out, payload, accept, method, cands, at_render, form_ctx, pre_vary)
         elif kind == 'status':
             self.check_status(rq, out, payload, method, at_render)
         else:
@@ -764,7 +776,7 @@ class Checker:
             self.report('body-mismatch', rq, {'outcome': 'handler ' + b[0], 'want': want, 'got': out['body'][:300]},
                         self.body_known(at_render, bool(want), out))
 
-    def check_error(self, rq, out, info, accept, method, cands, at_render, form_ctx):
+    def check_error(self, rq, out, info, accept, method, cands, at_render, form_ctx, pre_vary=None):
         rec, prog = self.rec, self.prog
         rec.count('mon.http_error_outcome')
         mp_known = K_FORM if form_ctx else None
@@ -773,12 +785,24 @@ class Checker:
             self.report('status-mismatch', rq, {'want': info['status'], 'got': out['status'], 'outcome': 'HTTPError'},
                         known)
             return
-        if not self.check_headers(rq, out, info['headers'], 'HTTPError headers'):
+        own_vary = [v for k, v in info['headers'] if k.lower() == 'vary']
+        if not self.check_headers(rq, out, [h for h in info['headers'] if h[0].lower() != 'vary'],
+                                  'HTTPError headers'):
             return
+        # Vary is a member list: the error's own members (or, if it defines none, the members the response
+        # already carried) must survive next to the Accept the default rendering adds
         rec.count('mon.vary')
-        vary = [t.strip().lower() for v in hvalues(out, 'vary') for t in v.split(',')]
-        if 'accept' not in vary:
-            self.report('vary-missing', rq, {'vary': hvalues(out, 'vary')})
+        want_vary = {'accept'}
+        if own_vary:
+            rec.count('vary.error_defines_members')
+            want_vary |= members(own_vary[-1:])
+        elif pre_vary:
+            rec.count('vary.set_before_raise')
+            want_vary |= pre_vary
+        got_vary = members(hvalues(out, 'vary'))
+        if not want_vary <= got_vary:
+            self.report('vary-missing', rq, {'vary': hvalues(out, 'vary'), 'missing': sorted(want_vary - got_vary),
+                                             'error_vary': own_vary, 'before_raise': sorted(pre_vary or [])})
             return
         if method == 'HEAD':
             rec.count('body.not_applicable')
@@ -963,13 +987,28 @@ HDR_NAMES = ['X-A', 'x-b', 'X-Request-Id', 'Cache-Control', 'Retry-After', 'X-C0
              'ETag', 'X-Frame-Options']
 
 
-def rand_headers(rng, exclude=()):
+VARY_VALUES = ['Accept-Language', 'Cookie', 'accept-encoding', 'Cookie, Accept-Encoding', 'Origin,User-Agent',
+               'Accept', 'Accept-Language, accept', '*', 'X-Tenant ,  Cookie']
+MULTI_VALUED = [['Cache-Control', 'no-store, max-age=0'], ['Link', '</a>; rel="next", </b>; rel="prev"'],
+                ['Allow', 'GET, HEAD'], ['Access-Control-Expose-Headers', 'X-A, X-B'],
+                ['Content-Language', 'en, de-CH']]
+
+
+def rand_headers(rng, exclude=(), vary=False):
     names = [n for n in HDR_NAMES if n.lower() not in exclude]
     rng.shuffle(names)
     out = []
     for n in names[:rng.randint(0, 3)]:
         v = ''.join(rng.choice('abcXYZ019 -_.;=,/"éÿ§') for _ in range(rng.randint(1, 12))).strip() or 'v'
         out.append([n, v])
+    if vary:
+        # multi-valued headers, Vary in particular (the default rendering appends to it)
+        if rng.random() < 0.4:
+            out.insert(rng.randint(0, len(out)), ['Vary' if rng.random() < 0.7 else 'vary', rng.choice(VARY_VALUES)])
+        if rng.random() < 0.3:
+            mv = rng.choice(MULTI_VALUED)
+            if mv[0].lower() not in exclude and all(h[0].lower() != mv[0].lower() for h in out):
+                out.append(list(mv))
     return out
 
 
@@ -995,7 +1034,8 @@ def rand_error_fields(rng, es, allow_title=True):
         if rng.random() < 0.6:
             es['href_text'] = rand_str(rng, 3)
     if rng.random() < 0.5:
-        es['headers'] = rand_headers(rng, exclude=('retry-after', 'www-authenticate'))
+        es['headers'] = rand_headers(rng, exclude=('retry-after', 'www-authenticate', 'allow', 'content-range'),
+                                     vary=True)
         es['hdict'] = rng.random() < 0.5
     return es
 
@@ -1053,7 +1093,7 @@ def rand_status_spec(rng, cls=None, family='HTTPStatus'):
     if family == 'HTTPStatus':
         es['status'] = rng.choice([200, 201, 202, 204, 206, 226, 299, 301, 304, 400, 404, 418, 500, 599,
                                    '200 OK', '299 Fine é', '404 Not Found'])
-        es['headers'] = rng.choice([None, None, rand_headers(rng)])
+        es['headers'] = rng.choice([None, None, rand_headers(rng, vary=True)])
         es['text'] = rng.choice([None, '', rand_str(rng)])
     else:
         es['location'] = rng.choice(['/new', 'http://example.com/a?b=c', '/é'.encode('utf-8').decode('latin-1')])
@@ -1109,6 +1149,8 @@ def rand_preset(rng):
         p = {'text': 'stale-text', 'data': 'stale-data', 'media': {'stale': True}}
     if rng.random() < 0.3:
         p['status'] = rng.choice([201, 202, 404])
+    if rng.random() < 0.3:
+        p['vary'] = rng.choice(VARY_VALUES)
     return p
 
 
@@ -1410,9 +1452,15 @@ E2_KINDS = [
     {'cls': 'HTTPRangeNotSatisfiable', 'resource_length': 1234},
     {'cls': 'HTTPInvalidParam', 'pos': ['must be <10>', 'limit']},
     {'cls': 'HTTPMissingHeader', 'pos': ['X-Auth']},
+    {'cls': 'HTTPForbidden', 'headers': [['Vary', 'Accept-Language']], 'hdict': True},
+    {'cls': 'HTTPGone', 'headers': [['X-Z', 'z'], ['vary', 'Cookie, Accept-Encoding'],
+                                    ['Cache-Control', 'no-store, max-age=0']], 'hdict': False},
+    {'cls': 'E', 'status': 409, 'headers': [['Vary', 'Accept'], ['Link', '</a>; rel="next", </b>; rel="prev"']],
+     'hdict': True},
 ]
 E2_PRESETS = [None, {'text': 'stale text'}, {'data': 'stale data'}, {'media': {'stale': 1}},
-              {'text': 'stale text', 'data': 'stale data', 'media': {'stale': 1}, 'status': 201}]
+              {'text': 'stale text', 'data': 'stale data', 'media': {'stale': 1}, 'status': 201},
+              {'media': {'stale': 2}, 'vary': 'Cookie'}, {'vary': 'Origin, accept-encoding'}]
 
 
 def e2_internal():
@@ -1426,7 +1474,7 @@ def e2_internal():
             out.append({'method': 'PATCH', 'accept': acc, 'plan': list(pl) + [['mw1.resp', None, {'cls': 'B'}]]})
             out.append({'method': 'WEBSOCKET', 'accept': acc, 'plan': []})
             out.append({'method': 'WEBSOCKET', 'path': 'sink', 'accept': acc, 'plan': [['mw0.resp', None, {'cls': 'A'}]]})
-            if preset is None or set(preset) == {'media'}:     # text/data would take precedence over media
+            if preset is None or set(preset) <= {'media', 'vary'}:     # text/data would take precedence over media
                 out.append({'method': 'GET', 'accept': acc, 'render_nope': True,
                             'plan': list(pl) + [['responder', {'media': {'x': 1}, 'ctype': NOPE_TYPE}, None]]})
                 out.append({'method': 'POST', 'accept': acc, 'render_nope': True,
@@ -1628,6 +1676,7 @@ def run(rec):
         'req.multi_raise': 1200, 'req.body_set_before_raise': 3300,
         'site.responder': 9000, 'site.noroute': 600, 'site.meta': 190, 'site.nomethod': 190, 'site.render': 210,
         'stack.wsgi': 220, 'stack.asgi': 220, 'random.programs': 40,
+        'vary.error_defines_members': 500, 'vary.set_before_raise': 550,
     }
     for s_ in SITES_REQ + SITES_MID + ['sink'] + SITES_RESP:
         if s_ != 'responder':
